@@ -548,7 +548,10 @@ class StateScenario(Scenario):
                 self.check_defined(st, rec, owner, key, True, route, "subconfig")
             else:
                 self.check_unchanged(st, rec, s0, cfg, route, "subconfig")
-                self.check_rejection(st, rec, err, path, node, route)
+                if isinstance(v, dict):
+                    self.after_tree_rejection(st, rec, err, schema.sub_schema_node(st.sd, node), v, path + ".", route)
+                else:
+                    self.check_rejection(st, rec, err, path, node, route)
             return
         if node["kind"] in ("virtual", "method"):
             if err is not None:
